@@ -32,3 +32,14 @@ Theorem C05_cell_superset_voronoi : forall dim lo hi g sites c p,
   voronoi_region lo hi g sites p -> in_planes (cplanes c) p.
 Proof. exact cell_superset_voronoi. Qed.
 Print Assumptions C05_cell_superset_voronoi.
+
+(* ---- the principle of the floating-point filter: a computed value that is farther from zero than the bound on its own
+   error has the sign of the exact value.  HalfSpace::clip is sound exactly when its `errb` dominates the accumulated
+   rounding error of n.v - d (including the error of the vertex v): the recorded findings K2 (ill-conditioned vertices)
+   and F14 (bound not scaling with the coordinates, fixed) are violations of this hypothesis, found by the decision-level
+   correspondence of the C05 check, which compares every filter-conclusive decision with the exact sign *)
+From MV Require Import Proofs.GeomLemmas.
+Theorem C05_filter_principle : forall exact computed errb : Z,
+  Z.abs (computed - exact) <= errb -> errb < Z.abs computed -> Z.sgn computed = Z.sgn exact.
+Proof. exact filter_principle. Qed.
+Print Assumptions C05_filter_principle.
